@@ -8,9 +8,9 @@ cd "$wt" || exit 9
 git checkout -q -- . 2>/dev/null; git clean -qfd falcon-rust/tests 2>/dev/null
 git apply --check OUT/patch.diff || { echo "CONFIRM: patch does not apply"; exit 1; }
 mkdir -p falcon-rust/tests; cp "OUT/$demo" falcon-rust/tests/vf_demo.rs
-echo "--- demo WITHOUT patch"; cargo test --offline -p falcon-rust --features verif-hooks --test vf_demo 2>&1 | grep -E "^test |test result|error" | head -20
+echo "--- demo WITHOUT patch"; cargo test --offline --release -p falcon-rust --features verif-hooks --test vf_demo 2>&1 | grep -E "^test |test result|error" | head -20
 git apply OUT/patch.diff
 echo "--- builds WITH patch"; cargo build --offline -p falcon-rust 2>&1 | grep -E "^error|Finished" ; cargo build --offline -p falcon-rust --features verif-hooks 2>&1 | grep -E "^error|Finished"
-echo "--- demo WITH patch"; cargo test --offline -p falcon-rust --features verif-hooks --test vf_demo 2>&1 | grep -E "^test |test result|error" | head -20
+echo "--- demo WITH patch"; cargo test --offline --release -p falcon-rust --features verif-hooks --test vf_demo 2>&1 | grep -E "^test |test result|error" | head -20
 rm -f falcon-rust/tests/vf_demo.rs
 echo "--- suite WITH patch"; cargo test --offline -p falcon-rust --lib 2>&1 | grep -E "test result|FAILED|failed" | head
